@@ -57,7 +57,8 @@ Record store := {
   file_of : file;
   keyspace : list key;           (* content of the persisted node metadata.keyspace *)
   keys : list key;               (* Keys._keys of the open Artifact object *)
-  cache : list (key * Z)         (* Artifact._cache: key -> loaded content *)
+  cache : list (key * Z);        (* Artifact._cache: key -> loaded content (as seen through the handle's filter) *)
+  filt : Z                       (* the open object's filter_terms (+ draw column filter), as an id; 0 = none *)
 }.
 
 Fixpoint find {A} (k : key) (m : list (key * A)) : option A :=
@@ -120,16 +121,21 @@ Definition writable (d : data) : bool := match d with DNone | DUnwritable => fal
 Inductive out := Done | Loaded (i : Z) | LoadedReserved | Rej (e : err).
 Inductive op :=
   | Write (k : key) (d : data) | Load (k : key) | Remove (k : key) | Replace (k : key) (d : data)
-  | ClearCache | Reopen.
+  | ClearCache | Reopen (f : Z).      (* Reopen f = Artifact(path, filter_terms = f) *)
 
 Section Ops.
-(* what hdf.load gives back for a stored content: [rt true] for tables (under the artifact's filter terms),
-   [rt false] for JSON payloads (json.load o json.dumps) *)
+(* what the UNFILTERED hdf.load gives back for a stored content: [rt true] for tables, [rt false] for JSON payloads
+   (json.load o json.dumps); and what a handle with filter [f] makes of a table content ([view f]: the rows passing
+   the valid filter terms, the columns the draw filter selects - see load_filtered / select_columns below).  JSON
+   payloads are not filtered (hdf.load 176-179). *)
 Variable rt : bool -> Z -> Z.
+Variable view : Z -> Z -> Z.
 Definition back (n : node) : Z := match n with NTable i => rt true i | NJson i => rt false i end.
+(* hdf.load(path, key, filter_terms, draw_column_filter) through a handle whose filter is [f] *)
+Definition seen (f : Z) (n : node) : Z := match n with NTable i => view f (rt true i) | NJson i => rt false i end.
 
 Definition set_file (s : store) (f : file) : store :=
-  {| file_of := f; keyspace := keyspace s; keys := keys s; cache := cache s |}.
+  {| file_of := f; keyspace := keyspace s; keys := keys s; cache := cache s; filt := filt s |}.
 
 (* Artifact.write: duplicate, no data, overlapping key (4bbd9e87), hdf.write, Keys.append *)
 Definition write (s : store) (k : key) (d : data) : store * out :=
@@ -140,7 +146,7 @@ Definition write (s : store) (k : key) (d : data) : store * out :=
               let '(f', r) := hdf_write (file_of s) k d in
               match r with
               | Some e => (set_file s f', Rej e)
-              | None => ({| file_of := f'; keyspace := keys s ++ [k]; keys := keys s ++ [k]; cache := cache s |}, Done)
+              | None => ({| file_of := f'; keyspace := keys s ++ [k]; keys := keys s ++ [k]; cache := cache s; filt := filt s |}, Done)
               end
        end.
 
@@ -150,14 +156,15 @@ Definition remove (s : store) (k : key) : store * out :=
   else if key_eqb k ks_key then (s, Rej EArtifact)
   else let ks' := remove_first k (keys s) in
        if valid_key k && occupied (file_of s) k
-       then ({| file_of := hdf_remove (file_of s) k; keyspace := ks'; keys := ks'; cache := del k (cache s) |}, Done)
-       else ({| file_of := file_of s; keyspace := ks'; keys := ks'; cache := del k (cache s) |}, Rej EOther).
+       then ({| file_of := hdf_remove (file_of s) k; keyspace := ks'; keys := ks'; cache := del k (cache s); filt := filt s |}, Done)
+       else ({| file_of := file_of s; keyspace := ks'; keys := ks'; cache := del k (cache s); filt := filt s |}, Rej EOther).
 
 (* what re-writing the data loaded from a node stores again (hdf.write o hdf.load on a stored node) *)
 Definition data_of (n : node) : data :=
   match n with NTable i => DFrame i | NJson i => DJson i end.
 
-(* Artifact.replace: membership, no data, check_writable, position + raw hdf.load of the old data (raises when the
+(* Artifact.replace: membership, no data, check_writable, position + RAW hdf.load(path, key, None, None) of the old
+   data - not through the handle's filter: what is written back on failure is the whole stored content (raises when the
    node is not loadable - nothing has happened yet), remove, write; when the write raises: hdf.write of the old data
    and Keys.insert at the old position, then the error is re-raised (4cf26c03).  For the reserved key the raw load
    succeeds (the key list) and remove refuses. *)
@@ -182,7 +189,7 @@ Definition replace (s : store) (k : key) (d : data) : store * out :=
                    let '(f3, r3) := hdf_write (file_of s2) k od in
                    match r3 with
                    | None => ({| file_of := f3; keyspace := insert_at pos k (keys s2); keys := insert_at pos k (keys s2);
-                                 cache := cache s2 |}, Rej e)
+                                 cache := cache s2; filt := filt s2 |}, Rej e)
                    | Some e3 => (set_file s2 f3, Rej e3)       (* the handler itself raised *)
                    end
                | _ => (s2, o2)
@@ -200,67 +207,68 @@ Definition load (s : store) (k : key) : store * out :=
        | Some i => (s, Loaded i)
        | None => match find k (file_of s) with
                  | Some n => ({| file_of := file_of s; keyspace := keyspace s; keys := keys s;
-                                 cache := (k, back n) :: cache s |}, Loaded (back n))
+                                 cache := (k, seen (filt s) n) :: cache s; filt := filt s |}, Loaded (seen (filt s) n))
                  | None => (s, Rej EOther)
                  end
        end.
 
-(* Reopen = a new Artifact object on the same path: Keys.__init__ reads the keyspace node, the cache is empty *)
+(* Reopen f = a new Artifact object on the same path with filter f: Keys.__init__ reads the keyspace node, the cache is
+   empty.  Two handles with different filters used alternately on one file are a history with Reopen between. *)
 Definition step (s : store) (o : op) : store * out :=
   match o with
   | Write k d => write s k d
   | Load k => load s k
   | Remove k => remove s k
   | Replace k d => replace s k d
-  | ClearCache => ({| file_of := file_of s; keyspace := keyspace s; keys := keys s; cache := [] |}, Done)
-  | Reopen => ({| file_of := file_of s; keyspace := keyspace s; keys := keyspace s; cache := [] |}, Done)
+  | ClearCache => ({| file_of := file_of s; keyspace := keyspace s; keys := keys s; cache := []; filt := filt s |}, Done)
+  | Reopen f => ({| file_of := file_of s; keyspace := keyspace s; keys := keyspace s; cache := []; filt := f |}, Done)
   end.
 
 Fixpoint run (s : store) (ops : list op) : store :=
   match ops with [] => s | o :: r => run (fst (step s o)) r end.
 
-(* what a key holds, as a freshly opened artifact would load it *)
+(* what a key holds, as a freshly opened UNFILTERED artifact (or hdf.load without terms) would load it *)
 Definition abs (s : store) (k : key) : option Z := option_map back (find k (file_of s)).
 
 End Ops.
 
 (* Artifact(path) on a path where no file exists: touch + keyspace node ["metadata.keyspace"] *)
-Definition init : store := {| file_of := []; keyspace := [ks_key]; keys := [ks_key]; cache := [] |}.
+Definition init : store := {| file_of := []; keyspace := [ks_key]; keys := [ks_key]; cache := []; filt := 0 |}.
 
-(* ---- the abstract machine the artifact refines: a plain finite map key -> content ---- *)
-Definition amap := list (key * Z).
+(* ---- the abstract machine the artifact refines: a plain finite map key -> what was stored (kind + content) ---- *)
+Definition amap := list (key * node).
 Definition node_of (d : data) : option node :=
   match d with DFrame i => Some (NTable i) | DJson i => Some (NJson i) | _ => None end.
 Definition is_some {A} (o : option A) : bool := match o with Some _ => true | None => false end.
 
-Section Spec.
-Variable rt : bool -> Z -> Z.
 (* the new map and whether the operation is accepted:
      write   = insert, if the key is well formed, not the reserved one, absent, overlaps no present key (nor the
                reserved one) and the data can be stored
      remove  = delete, if present;   replace = overwrite, if present and the data can be stored
-     everything else - and every operation that is not accepted - is the identity                                *)
+     everything else - and every operation that is not accepted - is the identity; the handle's filter plays no role *)
 Definition spec_step (m : amap) (o : op) : amap * bool :=
   match o with
   | Write k d =>
       match node_of d with
       | Some n => if valid_key k && negb (key_eqb k ks_key) && negb (is_some (find k m)) &&
                      negb (existsb (overlaps k) (ks_key :: map fst m))
-                  then (m ++ [(k, back rt n)], true) else (m, false)
+                  then (m ++ [(k, n)], true) else (m, false)
       | None => (m, false)
       end
   | Remove k => if is_some (find k m) then (del k m, true) else (m, false)
   | Replace k d =>
       match node_of d with
-      | Some n => if is_some (find k m) then (del k m ++ [(k, back rt n)], true) else (m, false)
+      | Some n => if is_some (find k m) then (del k m ++ [(k, n)], true) else (m, false)
       | None => (m, false)
       end
   | Load k => (m, is_some (find k m) || key_eqb k ks_key)
-  | ClearCache | Reopen => (m, true)
+  | ClearCache | Reopen _ => (m, true)
   end.
 Fixpoint spec_run (m : amap) (ops : list op) : amap :=
   match ops with [] => m | o :: r => spec_run (fst (spec_step m o)) r end.
-End Spec.
+
+(* an operation sequence with the handles' filters forgotten *)
+Definition erase (o : op) : op := match o with Reopen _ => Reopen 0 | _ => o end.
 
 Definition is_rej (o : out) : bool := match o with Rej _ => true | _ => false end.
 Definition op_key (o : op) : option key :=
@@ -333,11 +341,17 @@ Record observation := {
   o_loads2 : list (key * option Z)       (* Artifact(path).load(k): content id, None = raised *)
 }.
 
-Fixpoint run_obs (rt : bool -> Z -> Z) (s : store) (l : list observation) : bool :=
+Fixpoint lookup_view (tbl : list (Z * Z * Z)) (f i : Z) : Z :=
+  match tbl with
+  | [] => i
+  | (f', i', j) :: r => if (f' =? f) && (i' =? i) then j else lookup_view r f i
+  end.
+
+Fixpoint run_obs (rt : bool -> Z -> Z) (view : Z -> Z -> Z) (s : store) (l : list observation) : bool :=
   match l with
   | [] => true
   | o :: r =>
-      let '(s', res) := step rt s (o_op o) in
+      let '(s', res) := step rt view s (o_op o) in
       Bool.eqb (is_rej res) (o_rej o) &&
       match res with Loaded i => option_eqb Z.eqb (Some i) (o_loaded o) | _ => true end &&
       same_keys (keys s') (o_keys o) && same_keys (file_keys (file_of s')) (o_file o) &&
@@ -346,12 +360,14 @@ Fixpoint run_obs (rt : bool -> Z -> Z) (s : store) (l : list observation) : bool
                            (if memk (fst kv) (keyspace s') && negb (key_eqb (fst kv) ks_key)
                             then option_map (back rt) (find (fst kv) (file_of s'))
                             else None) (snd kv)) (o_loads2 o) &&
-      run_obs rt s' r
+      run_obs rt view s' r
   end.
 
-Definition ops_case := (list (Z * Z) * list (Z * Z) * list observation)%type.   (* rt json, rt table, observations *)
+(* rt json, rt table, the filters' effect on table contents (filter id, content id, filtered content id), observations;
+   [o_loaded] is what the (possibly filtered) HANDLE returned, [o_loads2] what an UNFILTERED second artifact loads *)
+Definition ops_case := (list (Z * Z) * list (Z * Z) * list (Z * Z * Z) * list observation)%type.
 Definition check_ops (c : ops_case) : bool :=
-  let '(tj, tb, l) := c in run_obs (mk_rt tj tb) init l.
+  let '(tj, tb, vt, l) := c in run_obs (mk_rt tj tb) (lookup_view vt) init l.
 
 (* Stream `filt`: a table whose queryable columns are [cols] with rows [rows] (in stored order), loaded through an
    artifact with filter terms [ts]; observed: the positions (in the unfiltered load) of the rows returned. *)
